@@ -24,10 +24,11 @@ def outcome(fn):
     return 'ok ' + treedump.dump(nodes) + '@%d' % pos
 
 
-def parse_top(s, tol, db=None):
+def parse_top(s, tol, db=None, wkw=None):
     from pylatexenc.latexwalker import LatexWalker
     from pylatexenc.latexnodes.parsers import LatexGeneralNodesParser
     kw = {} if db is None else {'latex_context': db}
+    kw.update(wkw or {})
     w = LatexWalker(s, tolerant_parsing=tol, **kw)
     tr = w.make_token_reader()
 
